@@ -507,7 +507,10 @@ class Executor:
         e = self.enc
         nm = re.sub(r"[^A-Za-z0-9_.!]", "_", name)
         if t in ("i64", "isize", "i32", "i128", "usize", "u64", "u32", "u8"):
-            return e.int_var(nm)
+            v = e.int_var(nm)
+            if t.startswith("u") and e.int_mode == "int":
+                e.side.append(f"(>= {v.term} 0)")       # unsigned
+            return v
         if t == "bool":
             return e.bool_var(nm)
         if t in ("f64", "f32"):
